@@ -166,4 +166,23 @@ PROPS = {
         "level_text": "Every explored picker run yielded each pseudo-legal move exactly once, hash move first when pseudo-legal, all weights inside their bands (~2e6 runs quick / ~5e8 thorough) under empty, saturated and realistic history tables; the one-step history bound is checked exhaustively. Held on the executions observed.",
         "level_note": "trusted: the engine's own generator as the definition of the move set; history tables reached only through FailHigh/Add as in the search",
     },
+    "C15": {
+        "pkg": "./c15",
+        "stages": [
+            {"name": "main", "timeout_q": 1500, "timeout_t": 7200},
+            {"name": "checkptr", "flags": ["-gcflags=all=-d=checkptr"], "timeout_q": 1500, "timeout_t": 7200},
+            {"name": "asan", "flags": ["-asan"], "timeout_q": 1500, "timeout_t": 7200},
+            {"name": "race", "flags": ["-race"], "timeout_q": 1500, "timeout_t": 7200},
+        ],
+        "rule": "cases = operations of seeded histories (8000 ops each) of Insert / LookUp / next-generation / Clear / Resize(+Clear, sometimes without) on a real transp.Table, over pools of 120 keys built to collide "
+                "(same bucket/different signature, same signature/different bucket, same both/different low bits; signatures 0, 0x8000, 0xffff), depths 0..63 with pairs straddling the +2 keep-deeper rule, plies 0..63 at store and probe, scores at 0, +-1, +-(Inf-65..Inf-63), +-Inf and random, "
+                "generations incl. the 255->0 wrap and entries of the previous generation, sizes 32 B (one bucket) .. 1 MiB+32 incl. odd bucket counts, resize up/down. Oracle: executable sequential model keyed by (bucket from the hook, 16-bit signature): every hit must return the modelled depth/bound/move/re-based value, "
+                "no hit for a never-stored or cleared (bucket, signature != 0), a probe right after a store hits and reflects it except for the keep-deeper rule, a store makes at most one other reachable key unreachable (eviction is learned by probing, the policy is not modelled), every other live key is unchanged by a store. "
+                "After a resize without clear only memory safety is judged. The lane matcher is tested directly (random words with planted key/key+-1/key^0x8000 lanes and an exhaustive pattern family). All of it repeated on checkptr, -asan and -race builds. "
+                "evaluations = operations + matcher cases; distinct_nontrivial = distinct seeded histories.",
+        "assumptions": ["bucket identity comes from the add-only hook VerifBucketIx, so a different but correct index function raises no alarm", "the replacement policy is not modelled: only 'at most one victim per store'"],
+        "technique": "runtime monitor: offline-free online checker of recorded Insert/LookUp/Clear/Resize histories against an executable sequential model, under plain, checkptr, AddressSanitizer and race-detector builds",
+        "level_text": "Every operation of every explored history (~5e6 ops quick / ~1e8 thorough on the plain build, plus reduced volumes under checkptr, ASan and the race detector) agreed with the sequential model; no sanitizer report, incl. continued use after Resize without Clear. Held on the executions observed.",
+        "level_note": "trusted: the 150-line sequential model; sanitizers only see executed paths; contents after a resize without clear are not judged (as the property says)",
+    },
 }
